@@ -149,7 +149,32 @@ def canon_d(t, upto):
     return " ".join(out)
 
 
+def a_case(t):
+    """decode an addrsForDial case (wire kind 6, SpecAddrs.v)"""
+    fdir, n = t[1], t[2]
+    i = 3
+    tbl = []
+    for _ in range(n):
+        idn, cls, grp, tpt, unspec, proxy = t[i:i + 6]; i += 6
+        tbl.append({"addr": idn, "class": {0: "other", 1: "tcp", 2: "ws", 3: "quic-v1", 4: "webtransport"}.get(cls, cls),
+                    "ip:port": grp, "swarm_has_transport": bool(tpt), "unspecified_ip": bool(unspec), "relayed": bool(proxy)})
+    m = t[i]; i += 1
+    ents = []
+    for _ in range(m):
+        k = t[i]; i += 1
+        ents.append([("%d/p2p/<peer>" % t[i + 2 * a]) if t[i + 2 * a + 1] else str(t[i + 2 * a]) for a in range(k)]); i += 2 * k
+    no = t[i]; out = t[i + 1:i + 1 + no]; i += 1 + no
+    ne = t[i]; errs = t[i + 1:i + 1 + ne]
+    return {"kind": "Swarm.addrsForDial", "forceDirect": bool(fdir), "addresses": tbl, "peerstore_entries_resolve_to": ents,
+            "returned_to_dial": out, "reported_with_error": errs}
+
+
 def describe(t):
+    if t and t[0] == 6:
+        try:
+            return a_case(t)
+        except Exception as e:
+            return {"raw": t[:200], "decode_error": str(e)}
     if t and t[0] == 5:
         try:
             return {"kind": "Swarm.DialPeer", "fdLimit": t[1], "perPeerLimit": t[2],
@@ -202,6 +227,13 @@ def nontrivial(line):
             return any(ob["waitingOnFd"] > 0 or ob["waitingOnPeer"] for _, ob in lim_steps(t))
     except Exception:
         return False
+    if t and t[0] == 6:
+        # addrsForDial: at least two addresses, and some address is filtered out or reported
+        try:
+            c = a_case(t)
+            return len(c["addresses"]) >= 2 and (len(c["returned_to_dial"]) < len(c["addresses"]) or bool(c["reported_with_error"]))
+        except Exception:
+            return False
     if t and t[0] == 5:
         # DialPeer: at least two callers were inside at once and a transport dial started
         try:
@@ -273,6 +305,8 @@ DCLAUSE = {1: "return-not-exactly-once/wrong-peer/unjustified-conn", 2: "cancell
            4: "caps", 5: "cancel-of-one-caller-ended-shared-dials", 6: "residue-after-all-returned", 7: "caller-count",
            8: "caller-never-returned", 9: "caller-waits-with-no-dial-in-flight(eligible-address-never-attempted)",
            10: "address-list-handed-to-worker-names-an-address-twice(modulo-/p2p-suffix)"}
+ACLAUSE = {1: "address-returned-twice", 2: "returned-address-should-have-been-filtered",
+           3: "dialable-address-silently-discarded", 4: "addresses-reported-with-error-are-not-those-without-transport"}
 WCLAUSE = {1: "request-answered-twice", 2: "address-handed-to-transport-twice", 3: "response-not-justified",
            4: "request-unanswered-at-quiescence", 5: "eligible-address-not-attempted"}
 CLAUSE = {1: "caps", 2: "residue", 3: "live-job-not-attempted", 4: "dial-invoked-more-than-once"}
@@ -293,6 +327,8 @@ def key(tag, toks, d):
                                                    canon_d(toks, step))
     if toks and toks[0] == 3:
         return "C05:sync:%s:%s" % (d, " ".join(map(str, toks[:160])))
+    if toks and toks[0] == 6:
+        return "C05:addrsForDial:%s:%s" % (ACLAUSE.get(d[2], str(d[2])) if len(d) > 2 else d, " ".join(map(str, toks[:200])))
     return "C05:%s:%s" % (toks[:1], d)
 
 
@@ -300,7 +336,9 @@ def what(tag, toks, d):
     step = d[1] if len(d) > 1 else "?"
     kind = toks[0] if toks else 0
     clause = (WCLAUSE if kind == 2 else CLAUSE).get(d[2], str(d[2])) if len(d) > 2 else "?"
-    comp = {1: "dial limiter", 2: "dial worker", 3: "dialSync", 4: "DefaultDialRanker", 5: "Swarm.DialPeer"}.get(kind, "?")
+    comp = {1: "dial limiter", 2: "dial worker", 3: "dialSync", 4: "DefaultDialRanker", 5: "Swarm.DialPeer", 6: "Swarm.addrsForDial"}.get(kind, "?")
+    if kind == 6:
+        clause = ACLAUSE.get(d[2] if len(d) > 2 else 0, "?")
     if kind == 5:
         clause = DCLAUSE.get(d[2] if len(d) > 2 else 0, "?")
     if kind == 3:
@@ -339,7 +377,7 @@ if __name__ == "__main__":
         "REPAIRED DEFECT (known_findings/C05.json, status fixed, /repo commit e092243): clearAllPeerDials, run by the deferred exit of a worker that returns late, used to delete the live jobs a newer active dial for the same peer had queued on the per-peer limit. The model transcribes the repaired code (only jobs whose context is done are dropped); c05_composite_no_lost_job now holds for every schedule; the old code is kept as clear_peer_old for the non-vacuity example; the harness scenario c05DialPeerStaleExit (old worker parked in the connection gater) is a fixed regression case on which monitor clause 9 must hold",
         "HEADLINE (composite monitor): c05_composite_monitor_accepts proves that the DialPeer monitor (clauses 1-7 and 9) accepts every trace of the composite model under the harness-level semantics, for every sequence of stimuli that satisfies SpecDialPeer.wf_stims_b (fresh caller ids, repetition-free rankings with delays in [0, 2 s), non-negative clock advances; the driver evaluates the same boolean on every recorded case and rejects the case otherwise) and limits >= 1. The harness-level semantics is presented as a relation (Proofs_CompositeH.hstep) whose moves carry the oracle answers the semantics gives them; its drain runs as many rounds as a bound computed from the state (SpecComposite.phi) and c05_composite_drain_quiescent proves that it ends in a state in which nothing can move. Clause 8 (the case ends with every caller returned) is a statement about how the harness ends a case, not about the model. The harness-level semantics lets a cancelled caller take its ctx.Done case first (the harness never has a response pending at that point); dial results of kind progress (TCP connection established, upgrade pending) are not produced by the DialPeer harness and are excluded from the composite headline (the worker-level theorems cover them). Concurrency finer than the listed atomic sections is covered by the correspondence only",
         "ranker: addresses are the tuple of answers of the predicates the ranker evaluates (recorded from the real predicates); sort.Slice is a Section hypothesis (permutes its input), instantiated with stable insertion sort (what sort.Slice runs for <= 12 elements; cases have <= 10 addresses)",
-        "addrsForDial: modelled as the pure function ModelAddrs.addrs_for_dial (resolve, strip /p2p, keep each address once, filter by an arbitrary predicate of the list); c05_addrs_for_dial_no_duplicates / _sound_complete hold for every peerstore content and every resolution. ma.Unique (sort + drop equal neighbours) is modelled as a set operation. On the implementation the output is judged by clause 10 of the DialPeer case monitor (the ranking recorded for every request names an address once, addresses numbered modulo a trailing /p2p/<peer>) with a scripted DNS resolver; the function itself is not replayed",
+        "addrsForDial: modelled as the pure pipeline ModelAddrs.addrs_pipeline (resolve, strip /p2p, keep each address once, then filterKnownUndialables in the code's order: no transport -> reported; low priority among the DIALABLE ones; unspecified IP; relayed under ForceDirectDial). c05_addrs_pipeline_spec: an address is handed to the worker iff some entry resolves to it, the swarm has a transport for it, and none of the filters legitimately removes it - in particular a /ws (/webtransport) address only if a DIALABLE /tcp (/quic-v1) address of the same ip:port exists; c05_addrs_pipeline_once_and_errors: each once, and exactly the addresses without a transport are reported. ma.Unique (sort + drop equal neighbours) is modelled as a set operation. Tied to the code by wire kind 6: every addrsForDial answer the DialPeer harness obtains (swarms with all or a random subset of the tcp / ws / quic / webtransport fake transports, tcp+ws and quic+webtransport pairs on one ip:port, aliased address forms, scripted resolver) is compared with the pipeline (conformance) and judged by the proved characterisation (monitor). Not in the harness, hence not in the model: dial-to-self, link-local, gater refusals, black-hole detector (disabled). That dialPeer copies the reported addresses into the DialError it returns is not observed",
         "black-hole detector and back-off expiry are inputs (BackoffBase is set to 24h in the worker harness so entries do not expire in a case)",
     ]
     standard_flow(ctx, dict(
@@ -371,7 +409,9 @@ if __name__ == "__main__":
              "mean the same transport address (literal, literal with a trailing /p2p/<peer>, a /dns4 name, and records of a /dnsaddr name giving the address, the "
              "address with /p2p/<peer>, or its /dns4 form; scripted resolver), with several DialPeer calls per case after the first one wrote the resolved addresses "
              "back to the peerstore; addresses are numbered after stripping /p2p, so that the monitor clauses 3 and 10 compare them as the code's de-duplication intends; "
-             "plus the fixed scenarios: a /dnsaddr peer dialed again while its resolved address is cached, a caller cancelled while blocked sending its request, and the regression scenario of the repaired defect (a closed worker parked in the connection gater returns after a new active dial has "
+             "one case in three runs on a swarm whose direct fake transport claims only a random subset of tcp / ws / quic-v1 / webtransport, and an address may be followed by its fallback on the same ip:port (/ws after /tcp, /webtransport after /quic-v1); "
+             "every addrsForDial answer obtained on the way is a case of its own (kind 6) compared with ModelAddrs.addrs_pipeline and judged by SpecAddrs.should_dial; "
+             "plus the fixed scenarios: a swarm with only the fallback transports and a peer advertising both on one ip:port, a /dnsaddr peer dialed again while its resolved address is cached, a caller cancelled while blocked sending its request, and the regression scenario of the repaired defect (a closed worker parked in the connection gater returns after a new active dial has "
              "queued jobs); every observation replayed by the composite model (SpecComposite) and judged by the monitor. Non-trivial = two callers inside at once and a transport dial started. "
              "ranker: DefaultDialRanker on 0-10 real multiaddrs of 19 kinds, output compared element by element. Non-trivial = >= 3 addresses "
              "with both IP versions. distinct = distinct case lines.",
